@@ -22,7 +22,7 @@ CHECKS = {
  "C15": ("fault_enumeration", "runtime fault injection on proof structure: every array node / option / non-field integer of proof, common data and parameters structurally mutated and fed to the circuit builders in memory-limited child processes; an optional part added where the shape has none is part of the mutant set; panics, aborts, circuits accepting what native rejects, and a builder returning Ok for what the native verifier rejects for a structural reason are violations",
          "Exhaustive structural mutants per shape (9 shapes quick, all thorough) x 4-5 entry points (verify_p3_uni_proof_circuit, verify_p3_batch_proof_circuit, verify_batch_circuit, verify_fri_circuit, build_next_layer_circuit). Panics inside native verifiers are observations only.",
          "DESIGN.md §3 C15", TRUSTED),
- "C04": ("fault_enumeration", "runtime fault injection on execution traces: honest Traces of generated programs are forged (table cell, slot value on all tables, constants, public cells), labelled by an independent op-relation evaluator, proven with the honest prover data and shown to the real verifier; second stream (c04npo): the recorded Poseidon permutation rows of row programs / add_mmcs_verify / add_hash_slice circuits are forged (chained limb, witness-bound limb, zero limb, each plain and with the permutation recomputed and carried down the chain, direction-bit flip), labelled by an independent model of the row relation that is first validated on the honest rows",
+ "C04": ("fault_enumeration", "runtime fault injection on execution traces: honest Traces of generated programs are forged (table cell, slot value on all tables, constants, public cells), labelled by an independent op-relation evaluator, proven with the honest prover data and shown to the real verifier; second stream (c04npo): the recorded Poseidon permutation rows of row programs / add_mmcs_verify / add_hash_slice circuits are forged (chained limb, witness-bound limb, zero limb, each plain and with the permutation recomputed and carried down the chain, direction-bit flip), labelled by an independent model of the row relation that is first validated on the honest rows; thorough tier: the same prove/verify workload replayed under valgrind memcheck in 16 single-threaded shards (a memcheck report fails the check)",
          "Enumerated single-fault classes on ALU/Const/Public tables of generated circuits in 8 field setups and on Poseidon2/Poseidon1 sponge, chained and arity-2 Merkle rows in 6 packed configurations; a forgery labelled unsatisfying must be rejected. Arity-4 and compact D=1 rows are covered at row level by C11 and for the challenger by C06. Coordinated multi-cell attacks beyond change-and-carry are outside the explored set.",
          "DESIGN.md §3 C04", TRUSTED),
  "C05": ("exploration", "differential runtime monitor over call histories: random interleavings of observe/sample/sample_bits/check_pow_witness/clear are executed by the in-circuit challenger (real runner) and by the native DuplexChallenger; every sampled value, bit vector and PoW verdict compared; second stream: two or three challengers in one circuit with interleaved operations, each compared with its own native transcript",
